@@ -6,6 +6,7 @@ use quote::ToTokens;
 use serde_json::{json, Value};
 use std::collections::BTreeMap;
 use syn::spanned::Spanned;
+use syn::visit::{self, Visit};
 use syn::visit_mut::{self, VisitMut};
 use syn::{parse_quote, Block, Expr, Pat, Stmt};
 
@@ -777,6 +778,72 @@ fn x16_lets(b: &[(syn::Ident, syn::Ident)]) -> Vec<Stmt> {
     b.iter().map(|(x, rx)| -> Stmt { parse_quote!(let #x = *#rx;) }).collect()
 }
 
+/// the generated index loop ends in `[BASE.__put_column(K, C);] X = __vp_succ(X);`: an unlabeled `continue` of the user's body
+/// becomes `{ <that epilogue> continue; }`, an unlabeled `break` becomes `{ [put] break; }` (nested loops and closures are skipped)
+struct JumpFix { cont: Vec<Stmt>, brk: Vec<Stmt>, labeled: bool }
+impl VisitMut for JumpFix {
+    fn visit_expr_mut(&mut self, e: &mut Expr) {
+        match e {
+            Expr::Closure(_) => {}
+            Expr::While(_) | Expr::ForLoop(_) | Expr::Loop(_) => {
+                // a labeled jump out of a nested loop could leave this loop without its epilogue
+                let mut f = LabeledJump(false);
+                f.visit_expr(e);
+                self.labeled |= f.0;
+            }
+            Expr::Continue(c) if c.label.is_some() => self.labeled = true,
+            Expr::Break(b) if b.label.is_some() || b.expr.is_some() => self.labeled = true,
+            Expr::Continue(c) if c.label.is_none() => {
+                let pre = &self.cont;
+                *e = parse_quote!({ #(#pre)* continue; });
+            }
+            Expr::Break(b) if b.label.is_none() && b.expr.is_none() => {
+                let pre = &self.brk;
+                if !pre.is_empty() {
+                    *e = parse_quote!({ #(#pre)* break; });
+                }
+            }
+            _ => visit_mut::visit_expr_mut(self, e),
+        }
+    }
+}
+struct LabeledJump(bool);
+impl<'ast> Visit<'ast> for LabeledJump {
+    fn visit_expr(&mut self, e: &'ast Expr) {
+        match e {
+            Expr::Closure(_) => {}
+            Expr::Continue(c) if c.label.is_some() => self.0 = true,
+            Expr::Break(b) if b.label.is_some() => self.0 = true,
+            _ => visit::visit_expr(self, e),
+        }
+    }
+}
+/// returns false when the body has a labeled jump (not modelled: the function is reported as unsupported)
+fn fix_jumps(body: &mut Block) -> bool {
+    let n = body.stmts.len();
+    if n == 0 {
+        return true;
+    }
+    let is_put = |st: &Stmt| norm(&st.to_token_stream().to_string()).contains(".__put_column(");
+    let is_inc = |st: &Stmt| norm(&st.to_token_stream().to_string()).contains("=__vp_succ(");
+    if !is_inc(&body.stmts[n - 1]) {
+        return true;
+    }
+    let mut epi = vec![body.stmts[n - 1].clone()];
+    let mut brk = vec![];
+    let mut user_end = n - 1;
+    if n >= 2 && is_put(&body.stmts[n - 2]) {
+        epi.insert(0, body.stmts[n - 2].clone());
+        brk.push(body.stmts[n - 2].clone());
+        user_end = n - 2;
+    }
+    let mut jf = JumpFix { cont: epi, brk, labeled: false };
+    for st in body.stmts[..user_end].iter_mut() {
+        jf.visit_stmt_mut(st);
+    }
+    !jf.labeled
+}
+
 struct Pass {
     x7_off: bool,
     iterarg: Vec<String>,
@@ -1096,7 +1163,16 @@ impl VisitMut for Pass {
         // X4 at statement level (top-down), then recurse
         let mut out: Vec<Stmt> = vec![];
         for st in b.stmts.drain(..) {
-            if let Some(rep) = self.rw.x4_stmt(&st) {
+            if let Some(mut rep) = self.rw.x4_stmt(&st) {
+                // `continue` / `break` of the original loop: in the index loop they must first run what the iterator protocol
+                // did implicitly (give the column back, advance the index)
+                for r in rep.iter_mut() {
+                    if let Stmt::Expr(Expr::While(w), _) = r {
+                        if !fix_jumps(&mut w.body) {
+                            self.rw.err = Some("unsupported labeled break/continue in a rewritten iterator loop".to_string());
+                        }
+                    }
+                }
                 out.extend(rep);
             } else {
                 out.push(st);
